@@ -125,8 +125,9 @@ package tabula
 //@   property C10, C11
 //@   flags callsites, releases
 //@   callsite FilterFragments(pi, fr, h) requires pi == pageNum && h == page.Height()
+// (C12: chunks report the page their content came from - the model page carries the SOURCE page number)
 //@ func (*Extractor) Document
-//@   property C10, C11
+//@   property C10, C11, C12
 //@   flags nosafety, releases
 //@   callsite AddPage(p) requires p.Number == pageNum + 1
 //@   callsite FilterFragments(pi, fr, h) requires pi == pageNum && h == page.Height()
